@@ -24,7 +24,7 @@ import (
 	"verifharness/internal/srvx"
 )
 
-var allKinds = []string{"missing", "unknown", "unknownstr", "closed", "notactivated", "valid", "validB"}
+var allKinds = []string{"missing", "unknown", "unknownstr", "aliasns", "aliasstr", "closed", "notactivated", "valid", "validB"}
 
 // requests that cannot hit a dereference whatever the token is
 func safeRequests(v int32) []struct {
@@ -120,6 +120,38 @@ func epMatrix(e *srvx.Episode) {
 		}
 		e.Do("valid2", fmt.Sprintf("delsubs %d,71", id), srvx.DeleteSubsReq(id, 71), "other session's subscription")
 		e.Do("valid", fmt.Sprintf("delsubs %d", id), srvx.DeleteSubsReq(id), "")
+	}
+	// a session that is closed and whose token is used again at once, with no request of another
+	// session in between (a lookup cache would still know it)
+	{
+		tmp := e.NewSession("missing", true, false)
+		saveV, saveC := e.Valid, e.Closed
+		e.Valid = tmp
+		e.Do("valid", "publish", srvx.PublishReq(), "most recently used session")
+		res := e.Do("valid", "createsub huge", srvx.CreateSubReq(3600000, 100000, 100000), "")
+		e.Do("valid", "close", &ua.CloseSessionRequest{}, "")
+		e.Valid, e.Closed = saveV, tmp
+		e.Do("closed", "publish", srvx.PublishReq(), "token of the session closed by the previous request")
+		e.Do("closed", "read", srvx.ReadReq(srvx.TestVar(), ua.AttributeIDValue), "token of the session closed two requests ago")
+		if cr, ok := res.Resp.(*ua.CreateSubscriptionResponse); ok {
+			// the closed session's own subscription: its token must not delete it any more
+			e.Do("closed", fmt.Sprintf("delsubs %d", cr.SubscriptionID), srvx.DeleteSubsReq(cr.SubscriptionID), "closed session deletes its own subscription")
+			e.Do("closed", fmt.Sprintf("createitems %d 1", cr.SubscriptionID), srvx.CreateItemsReq(cr.SubscriptionID, 1, srvx.TestVar()), "closed session adds items to its own subscription")
+			e.Child.DeleteSub(cr.SubscriptionID)
+			srvx.WaitUntil(3*time.Second, func() bool {
+				_, st := e.State()
+				if st == nil {
+					return true
+				}
+				for _, u := range st.Subs {
+					if u.ID == cr.SubscriptionID {
+						return false
+					}
+				}
+				return true
+			})
+		}
+		e.Closed = saveC
 	}
 	// seeded random tail
 	for i := 0; i < e.O.N(40, 400); i++ {
